@@ -64,14 +64,37 @@ impl ExponentialBackoff {
 
 impl IntervalFunction for ExponentialBackoff {
     fn next_interval(&self, attempt: usize) -> Duration {
-        let multiplier = self.multiplier.powi(attempt as i32);
-        let interval = self.initial_interval.mul_f64(multiplier);
+        capped_exponential(
+            self.initial_interval,
+            self.multiplier,
+            attempt,
+            self.max_interval,
+        )
+    }
+}
 
-        if let Some(max) = self.max_interval {
-            interval.min(max)
-        } else {
-            interval
-        }
+/// Computes `initial * multiplier^attempt`, capped at `max_interval` (or at
+/// `Duration::MAX` when no cap is configured).
+///
+/// The cap is applied in floating point *before* converting back to a
+/// `Duration`, so large attempt numbers saturate instead of panicking.
+fn capped_exponential(
+    initial_interval: Duration,
+    multiplier: f64,
+    attempt: usize,
+    max_interval: Option<Duration>,
+) -> Duration {
+    let exponent = attempt.min(i32::MAX as usize) as i32;
+    // Keep the factor finite so that a zero initial interval stays zero.
+    let factor = multiplier.powi(exponent).min(f64::MAX);
+    let cap = max_interval.unwrap_or(Duration::MAX);
+    let secs = initial_interval.as_secs_f64() * factor;
+
+    // `secs < cap` also rules out NaN and anything `Duration` cannot hold.
+    if secs < cap.as_secs_f64() {
+        Duration::from_secs_f64(secs).min(cap)
+    } else {
+        cap
     }
 }
 
@@ -119,20 +142,20 @@ impl ExponentialRandomBackoff {
         let min = duration.as_secs_f64() - delta;
         let max = duration.as_secs_f64() + delta;
         let randomized = rng.random_range(min..=max);
-        Duration::from_secs_f64(randomized.max(0.0))
+        // Largest f64 below 2^64 seconds: keeps the conversion from overflowing.
+        const MAX_SECS: f64 = 18_446_744_073_709_549_568.0;
+        Duration::from_secs_f64(randomized.max(0.0).min(MAX_SECS))
     }
 }
 
 impl IntervalFunction for ExponentialRandomBackoff {
     fn next_interval(&self, attempt: usize) -> Duration {
-        let multiplier = self.multiplier.powi(attempt as i32);
-        let interval = self.initial_interval.mul_f64(multiplier);
-
-        let capped = if let Some(max) = self.max_interval {
-            interval.min(max)
-        } else {
-            interval
-        };
+        let capped = capped_exponential(
+            self.initial_interval,
+            self.multiplier,
+            attempt,
+            self.max_interval,
+        );
 
         self.randomize(capped)
     }
